@@ -496,6 +496,64 @@ class Gen:
             self.run('commit', 'tip:' + self.rng.choice(qs))
             self.run('commit', 'tip:' + self.rng.choice(qs + qw))
 
+    def op_manual_on_middle_w(self):
+        """a commit pushed by hand on an intermediate integration branch whose
+        successor was already in sync, every tip green afterwards"""
+        dests = [d for d in self.dests() if not d.startswith('hotfix/')]
+        a = self.new_pr(dests[0])
+        self.forward_once(a)
+        heads = self.w.refs()[0]
+        ws = sorted(n for n in heads if n.startswith('w/') and
+                    n.endswith('/' + a['src']))
+        if len(ws) >= 2:
+            self.w.do('manual_commit', branch=self.rng.choice(ws[:-1]))
+        elif ws:
+            self.w.do('manual_commit', branch=ws[0])
+        for _ in range(3):
+            for t in self.interesting_tips(a):
+                if t.endswith(a['src']):
+                    self.w.do('set_status', ref=t, state='SUCCESSFUL')
+            rec = self.run('pr', a['id'])
+            if rec['status'] in ('Queued', 'SuccessMessage', 'Merged'):
+                break
+        self.m_forward(a, 2)
+
+    def op_conflict_on_later_target(self):
+        """the PR conflicts with a change that only exists on a later
+        destination: the conflict shows up on the 2nd+ integration branch"""
+        dests = [d for d in self.dests() if not d.startswith('hotfix/')]
+        if len(dests) < 2:
+            return self.op_two_prs_same_base()
+        later = self.rng.choice(dests[1:]) if self.rng.random() < 0.5 \
+            else dests[-1]
+        self.w.do('push_commit', branch=later, user=LEAD, files={
+            'shared.txt': 'line\nline\ntheirs on %s\nline\nline\n' % later})
+        self.n += 1
+        src = 'bugfix/TEST-%d-conflict' % self.n
+        pr = self.w.do('open_pr', src=src, dst=dests[0], files={
+            'shared.txt': 'line\nline\nmine\nline\nline\n'})
+        a = {'id': pr, 'src': src, 'dst': dests[0]}
+        self.prs.append(a)
+        self.run('pr', pr)
+        self.run('pr', pr)
+
+    def op_batch_merge(self):
+        """several PRs on different destinations (newest first) queued, then
+        merged by ONE queue evaluation"""
+        dests = [d for d in self.dests() if not d.startswith('hotfix/')]
+        order = list(reversed(dests))[:3] if self.rng.random() < 0.6 \
+            else [self.rng.choice(dests) for _ in range(3)]
+        prs = [self.new_pr(d, evaluate=False) for d in order]
+        for pr in prs:
+            self.queue_pr(pr)
+        heads = self.w.refs()[0]
+        qs = [b for b in sorted(heads) if b.startswith('q/')]
+        for b in qs:
+            self.w.do('set_status', ref='tip:' + b, state='SUCCESSFUL')
+        plain = [b for b in qs if not b.startswith('q/w/')]
+        if plain:
+            self.run('commit', 'tip:' + self.rng.choice(plain))
+
 
 OPENERS = {
     'two_prs_same_base': Gen.op_two_prs_same_base,
@@ -503,6 +561,9 @@ OPENERS = {
     'three_queued': Gen.op_three_queued,
     'dest_moves_while_open': Gen.op_dest_moves_while_open,
     'backport': Gen.op_backport,
+    'manual_on_middle_w': Gen.op_manual_on_middle_w,
+    'conflict_on_later_target': Gen.op_conflict_on_later_target,
+    'batch_merge': Gen.op_batch_merge,
     'stab_paths': Gen.op_stab_paths,
     'admin_branches': Gen.op_admin_branches,
     'partial_merge': Gen.op_partial_merge,
